@@ -402,3 +402,25 @@ Proof.
     pose proof (nonvar_ms_cycle P G x a k msgs Hx) as H. rewrite E in H. cbn [fst] in H.
     rewrite H. auto.
 Qed.
+
+(* ------------------------------------------------------------------ the two halves of [wf_vars] are
+   both necessary (of the model): on_start selects a declared initial value verbatim, whatever it
+   is; and on an empty domain the model's select_value returns the dummy index 0 (the code raises
+   ValueError there). *)
+Definition par0 : params := mkPar false 0%Q 0%Q false false 0%nat.
+
+Example amaxsum_needs_init_in_domain :
+  exists G sched n d c, In (ASel n d c) (snd (run (amaxsum_proto par0 G) sched)) /\
+    exists vd, zlookup n (d_vars G) = Some vd /\ (0 < v_dom vd)%nat /\ ~ (d < v_dom vd)%nat.
+Proof.
+  exists (mkD [(1, mkV 2 [] (Some 5%nat))] []), [Start 1], 1, 5%nat, None.
+  split; [vm_compute; auto|]. eexists. split; [reflexivity|]. cbn. lia.
+Qed.
+
+Example amaxsum_needs_nonempty_domain :
+  exists G sched n d c, In (ASel n d c) (snd (run (amaxsum_proto par0 G) sched)) /\
+    exists vd, zlookup n (d_vars G) = Some vd /\ v_init vd = None /\ ~ (d < v_dom vd)%nat.
+Proof.
+  exists (mkD [(1, mkV 0 [] None)] []), [Start 1], 1, 0%nat, (Some 0%Q).
+  split; [vm_compute; auto|]. eexists. split; [reflexivity|]. cbn. split; [reflexivity|lia].
+Qed.
